@@ -738,3 +738,41 @@ class _:
                 cm[prem.z] == z3.If(first, CLASSES["StartOverhangPremise"]["id"], CLASSES["EndOverhangPremise"]["id"])))),
             ("other-keys-kept", z3.ForAll([other], z3.Implies(other != key, z3.And(d1.has(other) == d0.has(other), d1.raw(other) == d0.raw(other))))),
         ]
+
+
+# --- applying a what-if: the premise removes the terminal contig it was made for from *its* overlap result -----------------
+# (C01 / C18: OverhangResolver.make_fixes changes overlap results only through apply(); what apply() does to the result is
+# what discard_start / discard_end are proved to do, at the end the premise is about, and the result stays well-formed)
+
+
+def _premise_apply(cls, ty, start):
+    moved, kept = ("g_lo", "g_hi") if start else ("g_hi", "g_lo")
+
+    @contract(f"{U}.{cls}.apply", properties=("C18", "C01"))
+    class _:
+        params = {"self": ty}
+        result = NONE
+        requires = staticmethod(lambda o: [("wf", wf(o.self.scaffold)), ("nonempty", o.self.scaffold.rows.len > 0)])
+
+        @staticmethod
+        def modifies(o):
+            sc = o.self.scaffold
+            return [("list", ROW, sc.rows), ("field", "OverlapResult", "start" if start else "end", sc),
+                    ("field", "OverlapResult", moved, sc), ("field", "OverlapResult", "g_ts" if start else "g_te", sc)]
+
+        @staticmethod
+        def ensures(o, n, res):
+            a, b = o.self.scaffold, n.self.scaffold
+            dropped = a.rows.len - b.rows.len
+            return [
+                ("same-result-object", b.z == a.z),
+                ("wf", wf(b, src=a.g_src)),
+                ("terminal-row-gone", z3.And(dropped >= 1, getattr(b, moved) == (getattr(a, moved) + dropped if start else getattr(a, moved) - dropped),
+                                             getattr(b, kept) == getattr(a, kept))),
+                ("other-end-kept", (b.end == a.end) if start else (b.start == a.start)),
+                ("same-bait", b.bait.z == a.bait.z),
+            ]
+
+
+_premise_apply("StartOverhangPremise", SP, True)
+_premise_apply("EndOverhangPremise", EP, False)
